@@ -4,6 +4,7 @@ import (
 	"context"
 	"fmt"
 	"math"
+	"strconv"
 
 	"github.com/cloudwego/dynamicgo/http"
 	"github.com/cloudwego/dynamicgo/internal/json"
@@ -172,13 +173,14 @@ func (self *BinaryConv) unmarshalSingular(ctx context.Context, resp http.Respons
 		if e != nil {
 			return wrapError(meta.ErrRead, "unmarshal Uint64kind error", e)
 		}
-		*out = json.EncodeInt64(*out, int64(v))
+		*out = strconv.AppendUint(*out, v, 10)
 	case proto.FIX64:
 		v, e := p.ReadFixed64()
 		if e != nil {
 			return wrapError(meta.ErrRead, "unmarshal Fixed64kind error", e)
 		}
-		*out = json.EncodeInt64(*out, int64(v))
+		// NOTICE: ReadFixed64 returns the unsigned value as int64
+		*out = strconv.AppendUint(*out, uint64(v), 10)
 	case proto.SFIX64:
 		v, e := p.ReadSfixed64()
 		if e != nil {
